@@ -71,8 +71,11 @@ def iter_to_seq(ex, st, ctx, it, node):
             ex.unsupported(st, ctx, "iteration over generator object", node)
             return None
     tag = b.static_tag(it)
+    dk = b.dyn_kind(ex, st, it)
+    if dk in ("dict", "list", "tuple", "set"):
+        tag = "ref"
     if tag == "ref":
-        kind = b.ref_kind(ex, it)
+        kind = {"dict": T_DICT, "list": T_LIST, "tuple": T_TUPLE, "set": T_SET}.get(dk, b.ref_kind(ex, it))
         if kind in (T_LIST, T_TUPLE, T_SET):
             return simp(st.heap.lget(rval(it)))
         if kind == T_DICT:
@@ -274,6 +277,12 @@ def call_method(ex, st, ctx, recv, name, args, kwargs, node):
     b = _B()
     tag = b.static_tag(recv)
     kind = b.ref_kind(ex, recv) if tag == "ref" else None
+    dk = b.dyn_kind(ex, st, recv)
+    if dk in ("dict", "obj", "list", "tuple", "set"):
+        tag = "ref"
+        kind = {"dict": T_DICT, "obj": T_OBJ, "list": T_LIST, "tuple": T_TUPLE, "set": T_SET}[dk]
+    elif dk is not None:
+        tag = dk
     if tag == "opq":
         return _opaque_method(ex, st, ctx, recv, name, args, node)
     if tag == "str" or (tag is None and name in STR_METHODS and name not in DICT_METHODS | LIST_METHODS):
@@ -586,7 +595,7 @@ def _format(ex, st, ctx, s, args, kwargs, node):
                 if argi >= len(args):
                     ex.raise_if(st, ctx, z3.BoolVal(True), "IndexError", node=node)
                     return sv("")
-                parts.append(py_str(args[argi], st.heap))
+                parts.append(b.py_str2(ex, st, args[argi]))
                 argi += 1
                 i += 2
             elif c in "{}":
@@ -617,18 +626,18 @@ def dict_method(ex, st, ctx, d, name, args, kwargs, node):
     b = _B()
     r = rval(d)
     if name == "get":
-        ks = simp(b.dkey(args[0]))
+        ks = simp(b.dkey2(ex, st, args[0]))
         if z3.is_string_value(ks):
             ex.key_universe.add(ks.as_string())
         default = args[1] if len(args) > 1 else VNone
-        return ite(st.heap.dhas(r, ks), st.heap.dget(r, ks), default)
+        return ite(b.hhas(ex, st, r, ks), ex.close_refs(b.hget(ex, st, r, ks)), default)
     if name in ("items", "keys", "values"):
         return ex.obj("dictitems", d, name)
     if name == "update":
         b.dict_update(ex, st, ctx, d, args[0], node)
         return VNone
     if name == "setdefault":
-        ks = simp(b.dkey(args[0]))
+        ks = simp(b.dkey2(ex, st, args[0]))
         default = args[1] if len(args) > 1 else VNone
         has = st.heap.dhas(r, ks)
         cur = st.heap.dget(r, ks)
@@ -639,7 +648,7 @@ def dict_method(ex, st, ctx, d, name, args, kwargs, node):
         st.heap = st.heap.dcopy(nr, r)
         return VRef(nr)
     if name == "pop":
-        ks = simp(b.dkey(args[0]))
+        ks = simp(b.dkey2(ex, st, args[0]))
         has = st.heap.dhas(r, ks)
         cur = st.heap.dget(r, ks)
         if len(args) > 1:
